@@ -98,7 +98,7 @@ def execute(prop, cfg, rep, dump_name, extra_events=None):
     rep.set("mc_invariants", "PremiseInv, LkInv, FarInv, SplitInv, DerivedInv")
     rep.phase("model_check")
     plan = drv.plan_from_states(states)
-    jobs = drv.make_jobs(prop, plan, tier(), rnd_every=3 if tier() == "quick" else 1)   # thorough: every scene also under a random kappa
+    jobs = drv.make_jobs(prop, plan, tier(), rnd_every=4 if tier() == "quick" else 1)   # thorough: every scene also under a random kappa
     import concurrent.futures as cf
 
     try:  # a killed worker (e.g. out of memory) must fail the run, not hang it
